@@ -428,7 +428,7 @@ def run_loop(eng, node, st, ordn, lc, idxname, d, guard_fn, bind_fn, step_fn, gh
         calls.havoc_target(eng, head, m)
     na = z3.Int(fresh_name('alloc'))
     head.assume(na >= head.heap.alloc)
-    head.heap.alloc = na
+    head.heap.new_epoch(na)
     if d is not None and d.kind in ('range', 'seq'):
         idx = head.env[idxname].t
         if d.step > 0:
@@ -459,6 +459,8 @@ def run_loop(eng, node, st, ordn, lc, idxname, d, guard_fn, bind_fn, step_fn, gh
     body.assume(gb)
     body.trail.append("loop%d:body" % ordn)
     bind_fn(body)
+    for gname, init in (lc.get('body_ghost') or {}).items():
+        body.env[gname] = eval_clause(eng, init, body.env, body, old=(f.entry_env, f.entry_heap))
     eng.oblige(body, "loop%d:cover:body" % ordn, 'cover', z3.BoolVal(False), node, expect_sat=True)
     dec0 = None
     if lc.get('decreases'):
@@ -470,6 +472,10 @@ def run_loop(eng, node, st, ordn, lc, idxname, d, guard_fn, bind_fn, step_fn, gh
         f.loop_frames.pop()
     for (o, s) in bouts:
         if o[0] in ('normal', 'continue'):
+            # instances of lemmas proved separately (lemma layer); listed in the evidence as assumptions
+            for label, clause in f.contract.labelled(lc.get('assume_lemmas', []), 'lemma-instance'):
+                s.assume(eval_bool(eng, clause, s.env, s, old=(f.entry_env, f.entry_heap)))
+                eng.assumed.add("lemma instance assumed in %s loop %s: %s" % (f.qualname, ordn, label))
             # intermediate proof steps: each is an obligation of its own, then available as a hypothesis
             for label, clause in f.contract.labelled(lc.get('lemmas_end', []), 'step'):
                 t = eval_bool(eng, clause, s.env, s, old=(f.entry_env, f.entry_heap))
